@@ -65,8 +65,9 @@ Proof. by split_and!. Qed.
     once ([umap]: of the result, after the quantification; [vmap]: of the
     second operand, before the conjunction), any sound memo: the result read
     at [a] is the quantification of [u /\ v[vmap]] read at [a] pulled back
-    through [umap].  The only exception is the reordering request (nested
-    call, reordering enabled); the fuel is never exhausted. *)
+    through [umap].  The only exceptions are the reordering request (nested
+    call, reordering enabled) and the full table ([RuntimeError], only when a
+    bound [max_nodes] is set); the fuel is never exhausted. *)
 Theorem C13_image_rec fuel s u v um vm q fa cache r s' :
   Inv s → valid s u → valid s v → no_reorder s →
   um_ok s um → vm_ok s vm v → icache_ok s um vm q fa cache →
@@ -76,7 +77,8 @@ Theorem C13_image_rec fuel s u v um vm q fa cache r s' :
   match r with
   | Ok (x, cache') => valid s' x ∧ icache_ok s' um vm q fa cache' ∧
         ∀ a, D s' x a = true ↔ qsemF fa q (body s vm u v) (oassign um a)
-  | Err e => e = ENeedsReordering ∧ is_Some (last_len s)
+  | Err e => (e = ENeedsReordering ∧ is_Some (last_len s)) ∨
+             (e = ERuntime ∧ is_Some (max_nodes s))
   end.
 Proof. exact (image_rec_spec fuel s u v um vm q fa cache r s'). Qed.
 
@@ -93,7 +95,8 @@ Theorem C13_image_rec_plain fuel s u v q fa r s' :
   match r with
   | Ok (x, _) => valid s' x ∧
         ∀ a, D s' x a = true ↔ qsemF fa q (conj_body s u v) a
-  | Err e => e = ENeedsReordering ∧ is_Some (last_len s)
+  | Err e => (e = ENeedsReordering ∧ is_Some (last_len s)) ∨
+             (e = ERuntime ∧ is_Some (max_nodes s))
   end.
 Proof. exact (image_rec_plain fuel s u v q fa r s'). Qed.
 
@@ -107,7 +110,8 @@ Theorem C13_image_rec_umap fuel s u v m q fa cache r s' :
   match r with
   | Ok (x, cache') => valid s' x ∧ icache_ok s' (Some m) None q fa cache' ∧
         ∀ a, D s' x a = true ↔ qsemF fa q (conj_body s u v) (post_assign m a)
-  | Err e => e = ENeedsReordering ∧ is_Some (last_len s)
+  | Err e => (e = ENeedsReordering ∧ is_Some (last_len s)) ∨
+             (e = ERuntime ∧ is_Some (max_nodes s))
   end.
 Proof. exact (image_rec_umap_spec fuel s u v m q fa cache r s'). Qed.
 
@@ -121,7 +125,8 @@ Theorem C13_preimage_rec fuel s u v m q fa cache r s' :
   match r with
   | Ok (x, cache') => valid s' x ∧ icache_ok s' None (Some m) q fa cache' ∧
         ∀ a, D s' x a = true ↔ qsemF fa q (pre_body s m u v) a
-  | Err e => e = ENeedsReordering ∧ is_Some (last_len s)
+  | Err e => (e = ENeedsReordering ∧ is_Some (last_len s)) ∨
+             (e = ERuntime ∧ is_Some (max_nodes s))
   end.
 Proof. exact (preimage_rec_spec fuel s u v m q fa cache r s'). Qed.
 
@@ -137,7 +142,7 @@ Theorem C13_adjacent_pairs_monotone s m v :
   vm_ok s (Some m) v.
 Proof. exact (vm_ok_adjacent s m v). Qed.
 
-(** ** [preimage], dynamic reordering disabled *)
+(** ** [preimage], dynamic reordering disabled, no bound on the number of nodes *)
 
 (** Under the documented preconditions the call succeeds (no assertion
     fires, the fuel suffices) and the result denotes
@@ -145,6 +150,7 @@ Proof. exact (vm_ok_adjacent s m v). Qed.
     reference keeps its meaning ([extends]). *)
 Theorem C13_preimage_correct s trans target byname rn qbyname qvars fa q rnl m r s' :
   Inv s → valid s trans → valid s target → last_len s = None →
+  max_nodes s = None →
   fst (map_to_level_set qbyname qvars s) = Ok q →
   fst (map_rename byname rn s) = Ok rnl → m = list_to_map (reverse rnl) →
   no_overlap m = true →
@@ -166,6 +172,7 @@ Qed.
 Theorem C13_preimage_correct_monotone
     s trans target byname rn qbyname qvars fa q rnl m r s' :
   Inv s → valid s trans → valid s target → last_len s = None →
+  max_nodes s = None →
   fst (map_to_level_set qbyname qvars s) = Ok q →
   fst (map_rename byname rn s) = Ok rnl → m = list_to_map (reverse rnl) →
   no_overlap m = true →
@@ -185,7 +192,8 @@ Theorem C13_rename_by_names_declared s rn rnl (m : gmap nat nat) :
   ∀ k k', m !! k = Some k' → k < nvars s ∧ k' < nvars s.
 Proof. exact (rename_names_declared s rn rnl m). Qed.
 
-(** ** [image], dynamic reordering disabled *)
+(** ** [image], dynamic reordering disabled, no bound on the number of nodes
+       (the bound is only needed to conclude that the call succeeds) *)
 
 (** Under the documented preconditions (keys disjoint from values, declared
     levels, every rename target quantified or absent from both operands; no
@@ -194,6 +202,7 @@ Proof. exact (rename_names_declared s rn rnl m). Qed.
     renaming. *)
 Theorem C13_image_correct s trans source byname rn qbyname qvars fa q rnl m r s' :
   Inv s → valid s trans → valid s source → last_len s = None →
+  max_nodes s = None →
   fst (map_to_level_set qbyname qvars s) = Ok q →
   fst (map_rename byname rn s) = Ok rnl → m = list_to_map (reverse rnl) →
   no_overlap m = true →
@@ -230,6 +239,7 @@ Qed.
 (** ... and when the checks pass it returns a result. *)
 Theorem C13_image_correct_checks s trans source byname rn qbyname qvars fa q rnl m r s' :
   Inv s → valid s trans → valid s source → last_len s = None →
+  max_nodes s = None →
   fst (map_to_level_set qbyname qvars s) = Ok q →
   fst (map_rename byname rn s) = Ok rnl → m = list_to_map (reverse rnl) →
   (∀ k k', m !! k = Some k' → k' < nvars s) →
@@ -338,7 +348,7 @@ Example C13_nonvacuous :
                world_empty in
   let s := world_get w 0 in
   mem (-12) s = true ∧ mem (-13) s = true ∧ mem (-14) s = true ∧ mem 15 s = true ∧
-  last_len s = None ∧
+  last_len s = None ∧ max_nodes s = None ∧
   match fst (map_to_level_set true [0; 2] s) with
   | Ok q => Some (elements q) | Err _ => None end = Some [0; 2] ∧
   fst (map_rename true [(1, 0); (3, 2)] s) = Ok [(1, 0); (3, 2)] ∧
